@@ -78,17 +78,52 @@ def r1_must_call(ctx):
   chk = ctx.repo.func(chk_fq)
   raises = [n for n in common.walk_no_nested(chk.node) if isinstance(n, ast.Raise)]
   ctx.check(R, len(raises) >= 1, chk.node, chk, 'raise on incompatibility', 'incompatible sharers must be rejected')
-  gq = cfgmod.build(chk.node)
-  outer = [n for n in gq.nodes if n.kind == 'for']
-  ctx.check(R, len(outer) == 2 and 'buffer_to_tensors' in ast.unparse(outer[0].ast.iter), chk.node, chk, 'loops', 'the check must visit every buffer group and every later tensor of the group')
-  if len(outer) == 2:
-    it = ast.unparse(outer[1].ast.iter)
-    ctx.check(R, it.endswith('[1:]'), outer[1].ast, chk, it, 'every tensor after the first must be compared with the first')
-    skip = [n for n in gq.nodes if n.kind == 'if' and 'len(' in ast.unparse(n.ast.test)]
-    ok = all(defuse.norm(n.ast.test) in ('len(tensors) <= 1', 'len(tensors) < 2') for n in skip)
-    ctx.check(R, ok, chk.node, chk, 'group skip', 'only groups with a single entry may be skipped')
-    calls = [c for c in common.calls_in(chk.node) if common.call_name(c).endswith('_compatible_tensor_transformation_params')]
-    ctx.check(R, len(calls) == 1, chk.node, chk, 'compatibility call', 'the compatibility predicate must decide')
+  _group_scan(ctx, R, chk)
+
+
+def _group_scan(ctx, R, chk):
+  """Every buffer group is visited unfiltered: the first sharer is compared with every later one."""
+  defs = defuse.own_assignments(chk.node)
+  inl = defuse.Inliner(ctx.repo, max_depth=0)
+  fors = sorted((n for n in common.walk_no_nested(chk.node) if isinstance(n, ast.For)), key=lambda n: n.lineno)
+  if not ctx.check(R, len(fors) == 2 and fors[1] in list(ast.walk(fors[0])), chk.node, chk, 'loops',
+                   'the check must visit every buffer group and every later tensor of the group'):
+    return
+  outer, inner = fors
+  src = defuse.norm(inl.inline(chk, outer.iter))
+  ctx.check(R, src in ('self.buffer_to_tensors.values()',), outer, chk, outer.iter, 'the groups must be all values of the buffer->tensors map')
+  if not (isinstance(outer.target, ast.Name) and isinstance(inner.target, ast.Name)):
+    raise index.AnalysisError(f'{chk.fq}: loop targets are not plain names')
+  G, T = outer.target.id, inner.target.id
+  ctx.check(R, defs.get(G) == [None] and defs.get(T) == [None], outer, chk, f'group variable {G}',
+            'the group of sharers is replaced or filtered before it is compared: a sharer left out of the group is never checked')
+  it = defuse.norm(inl.inline(chk, inner.iter))
+  ctx.check(R, it in (f'{G}[1:]', G), inner, chk, inner.iter, 'every tensor after the first must be compared with the first')
+  for n in common.walk_no_nested(outer):
+    if isinstance(n, ast.If) and n not in list(ast.walk(inner)) and any(isinstance(x, (ast.Continue, ast.Break, ast.Return)) for st in n.body + n.orelse for x in ast.walk(st)):
+      t = defuse.norm(inl.inline(chk, n.test))
+      ctx.check(R, t in (f'len({G}) <= 1', f'len({G}) < 2', f'len({G}) == 1', f'not {G}[1:]'), n, chk, n.test, 'only groups with a single entry may be skipped')
+  for n in common.walk_no_nested(inner):
+    if isinstance(n, (ast.Continue, ast.Break)):
+      ctx.check(R, False, n, chk, n, 'a sharer is skipped inside the comparison loop')
+  calls = [c for c in common.calls_in(chk.node) if common.call_name(c).endswith('_compatible_tensor_transformation_params')]
+  if not ctx.check(R, len(calls) == 1 and calls[0] in list(ast.walk(inner)), chk.node, chk, 'compatibility call', 'the compatibility predicate must decide for every later sharer'):
+    return
+  c = calls[0]
+  args = sorted(defuse.norm(inl.inline(chk, x)).replace('tfl_flatbuffer_utils.', '') for x in list(c.args) + [k.value for k in c.keywords])
+  want = sorted([f'self.model_quant_results[get_tensor_name({G}[0])]', f'self.model_quant_results[get_tensor_name({T})]'])
+  ctx.check(R, args == want, c, chk, c, 'the predicate must compare the recorded results of the first sharer and of the current one')
+  # the predicate's verdict leads to the raise
+  g = cfgmod.build(chk.node)
+  tests = [n for n in g.nodes if n.kind == 'if' and c in list(ast.walk(n.ast.test))]
+  ok = False
+  for n in tests:
+    neg = isinstance(n.ast.test, ast.UnaryOp) and isinstance(n.ast.test.op, ast.Not)
+    for d, lab in g.succ[n.id]:
+      if lab == ('T' if neg else 'F'):
+        r = g.reachable([d], blocked={g.node_of(inner).id})
+        ok = any(g.nodes[x].kind == 'raise' or isinstance(getattr(g.nodes[x], 'ast', None), ast.Raise) for x in r)
+  ctx.check(R, ok, c, chk, 'incompatible -> raise', 'an incompatible pair must be rejected with an error')
 
 
 def r2_coverage(ctx):
@@ -308,6 +343,31 @@ def r3_idempotent_overwrite(ctx, R='C15.R3'):
       ctx.check(R, f'{ti}.quant_params.{want}' in r, n, f, n, f'flatbuffer field {n.targets[0].attr} is not taken from quant_params.{want}')
 
 
+def r7_every_user_recorded(ctx):
+  R = 'C15.R7'
+  ctx.rule(R, 'every operator of every subgraph records a result for its tensors, so that every sharer of a buffer has an entry to compare', floor=1)
+  gen = ctx.repo.func(f'{PG}.generate_quantization_parameters')
+  ctx.instance(R)
+  g = cfgmod.build(gen.node)
+  loops = [n for n in g.nodes if n.kind == 'for' and ast.unparse(n.ast.iter).endswith('.operators') or n.kind == 'for' and '.operators' in ast.unparse(n.ast.iter)]
+  if len(loops) != 1:
+    raise index.AnalysisError(f'{gen.fq}: expected one loop over subgraph operators, found {len(loops)}')
+  head = loops[0]
+  upd = {n.id for n in g.nodes if any(common.call_name(c).endswith('_update_model_quant_results') for c in n.calls())}
+  mn, mx = g.iteration_count(head.id, upd)
+  path = None
+  if mn == 0:
+    body = g.loop_body_nodes(head.id)
+    first = [d for d, lab in g.succ[head.id] if d in body]
+    p = g.witness_path(first[0], head.id, upd) if first else None
+    path = g.describe_path(p) if p else None
+  ctx.check(R, mn >= 1, head.ast, gen, 'operator loop: _update_model_quant_results on every path',
+            'an operator can be passed over without recording results for its tensors: a constant it shares with a quantized operator '
+            'then has no (or an incomplete) entry and the conflicting request is not rejected', path=path)
+  outer = [n for n in g.nodes if n.kind == 'for' and ast.unparse(n.ast.iter).endswith('.subgraphs') or n.kind == 'for' and 'subgraphs' in ast.unparse(n.ast.iter)]
+  ctx.check(R, len(outer) == 1 and head.id in g.loop_body_nodes(outer[0].id), head.ast, gen, 'all subgraphs', 'operators of every subgraph must be visited')
+
+
 def run(ctx):
   r1_must_call(ctx)
   r2_coverage(ctx)
@@ -315,3 +375,4 @@ def run(ctx):
   r4_classification(ctx)
   r5_compat_table(ctx)
   shared.rule_exact_equality(ctx, 'C15.R6')
+  r7_every_user_recorded(ctx)
